@@ -362,6 +362,53 @@ class MMSTH(Harness):
         ob.append(("LAST <=> all groups connected or step_count+1 >= time_limit", (vs(ts.step_type) == 2).iff(all_(fin1) | (vs(st.step_count) + 1 >= self.T))))
         return ob
 
+    def kernels_c06(self, R):
+        """kernel obligation on the real tie-break (`_trim_duplicated_invalid_actions`) with THREE or more agents standing anywhere:
+        whatever the positions, finished flags, actions and the shuffle, no two agents are granted the same node in one step.  The
+        bounded unrolling from the instance's initial positions needs five or more joint moves before three agents can contest one
+        node; here the positions are symbolic, so the three-way tie is one query."""
+        A_, N_, _ = self.dims()
+        if A_ < 3:
+            return
+        import jax
+        import jax.numpy as jnp
+        from engine.jx2smt import Ctx
+        st_np, _ = self._instance()
+        ctx = Ctx(max_unroll=A_ + 1)
+        st0 = S.conc_tree(st_np)
+        pos = ctx.fresh_arr("K.positions", tuple(np.shape(st_np.positions)), np.asarray(st_np.positions).dtype, 0, N_ - 1)
+        fin = ctx.fresh_arr("K.finished", tuple(np.shape(st_np.finished_agents)), np.bool_)
+        st = st0.replace(positions=pos, finished_agents=fin)
+        act, apre = S.sym_action(ctx, self.env, tag="K.a")
+        key = ctx.fresh_arr("K.key", (2,), np.uint32)
+        fa, nodes = S.call(ctx, self.env._trim_duplicated_invalid_actions, st, act, key, R=R, name="MMST._trim_duplicated_invalid_actions")
+        A = apre + ctx.assumptions
+        from checks import common as C
+        C.unwinding(R, ctx, A)
+        R.reach("tie-break kernel inputs", A)
+        R.bound(kernel="_trim_duplicated_invalid_actions", agents=A_, positions="any node per agent", finished="any", action="any in-spec", shuffle="arbitrary permutation")
+
+        def oracle(fa_, nodes_):
+            f, n = vs(fa_), vs(nodes_)
+            return [(f"tie-break kernel: agents {i},{j} are never both granted the same node", ~((f[i] >= 0) & (f[j] >= 0) & (n[i] == n[j]) & (n[i] != -1)))
+                    for j in range(A_) for i in range(j)]
+
+        def replay_for(name):
+            def replay(model):
+                p_np, f_np, a_np = S.model_sv(model, pos), S.model_sv(model, fin), S.model_sv(model, act)
+                s_j = jax.tree_util.tree_map(jnp.asarray, st_np).replace(positions=jnp.asarray(p_np), finished_agents=jnp.asarray(f_np))
+                fn = jax.jit(self.env._trim_duplicated_invalid_actions)
+                for k in range(256):
+                    o_f, o_n = fn(s_j, jnp.asarray(a_np), jax.random.PRNGKey(k))
+                    vals = dict(oracle(SV(np.asarray(o_f), np.asarray(o_f).dtype), SV(np.asarray(o_n), np.asarray(o_n).dtype)))
+                    if not bool(vals[name]):
+                        return True, {"config": self.cfg, "key": f"PRNGKey({k})", "positions": np.asarray(p_np).tolist(), "finished": np.asarray(f_np).tolist(),
+                                      "action": np.asarray(a_np).tolist(), "granted_actions": np.asarray(o_f).tolist(), "nodes": np.asarray(o_n).tolist()}
+                return False, {"note": "no real key in 0..255 reproduces the model"}
+            return replay
+        for n_, v in oracle(fa, nodes):
+            R.prove(n_, A, v.term() if not v.conc else bool(v), replay=replay_for(n_))
+
     def kernels_c09(self, R):
         from checks import bmc
         bmc.run(R, self, self._relational, prefix="relation: ")
